@@ -770,6 +770,38 @@ def routing_table(env):
                 clause='a request is dispatched to exactly the service registered for the pattern matching its route, behind exactly the route-level middleware applied after that route was registered; any unmatched route gets NotFound with no middleware run; routing never panics on any route string; merging preserves every route\'s service and middleware')
 
 
+def codegen_routes(env):
+    """C17, the generator: anemo-build's client and server generators RUN on 480 service definitions (3 packages x 2 service names x every ordered
+    selection of 1..3 of 4 methods x raw-bytes handler or not); the generated text is inspected"""
+    got = _run('codegen_routes', {}, env, timeout=240)
+    fails = []
+    if got.get('panicked'):
+        fails.append(dict(scenario='codegen_routes', args={}, expected=dict(note='the generators run'), observed=got))
+    for p in got.get('problems') or []:
+        fails.append(dict(scenario='codegen_routes', args=dict(package=p['package'], service=p['service'], methods=p['methods'], raw_bytes_first=p['raw_bytes_first']),
+                          expected=dict(note='every generated client method sends to the route whose server arm calls the handler method of the same name, directly under the prefix the router registers for the service'), observed=p))
+    if not fails and got.get('definitions') != 480:
+        raise Undecided('codegen_routes scenario checked %s definitions' % got.get('definitions'))
+    return dict(name='codegen_routes', validates='the real generators of anemo-build (quote! token streams, outside every verifier) on a family of 480 service definitions: BOUNDED, by execution', cases=int(got.get('definitions') or 0), failed=fails, ok=not fails,
+                props=['C17'], clause='the generated client and server agree on every method\'s route, and that route lies under the prefix the router registers for the service, so a typed call reaches exactly the handler method of the same name')
+
+
+def typed_rpc_roundtrip(env):
+    """C17, the hand-written half on real networks: typed calls through rpc::client::Rpc to a typed handler behind rpc::server::Rpc"""
+    got = _run('typed_rpc_roundtrip', {}, env, timeout=120)
+    fails = []
+    if got.get('panicked'):
+        fails.append(dict(scenario='typed_rpc_roundtrip', args={}, expected=dict(note='no panic'), observed=got))
+    cases = got.get('cases') or []
+    for c in cases:
+        if not c['ok']:
+            fails.append(dict(scenario='typed_rpc_roundtrip', args=dict(case=c['case']), expected=dict(note='the handler\'s message, or its error status with code, message and headers intact; an undecodable payload is an error status'), observed=c['observed']))
+    if not fails and len(cases) != 8:
+        raise Undecided('typed_rpc_roundtrip scenario reported %d cases' % len(cases))
+    return dict(name='typed_rpc_roundtrip', validates='the codecs (bincode) and the whole typed path on real networks: 5 handler outcomes, 2 undecodable payloads, service afterwards', cases=len(cases), failed=fails, ok=not fails,
+                props=['C17'], clause='a typed call delivers the request message and returns either the handler\'s response message or the handler\'s error status with code, message and headers intact; undecodable payloads and non-success statuses surface as an error status, never as a panic or a wrong-typed success')
+
+
 def auth_scenarios(env):
     """C20 on the real layer: every allow-list over 2 peers x sender (absent / listed / unlisted) x direction marker (none / inbound / outbound),
     an application-defined authorizer whose refusal is a full response (status, headers, body); allow-lists of 0..=24 peers in four orders x every listed
@@ -828,5 +860,5 @@ def hostile_requests(env):
         fails.append(dict(scenario='hostile_requests', args={}, expected=dict(unanswered=[], wrongly_accepted=[], serving_stopped_after=None, server_closed=False,
                                                                               note='every request is answered (an error status for an unknown route or an undecodable body) and the node keeps serving'), observed=got))
     return dict(name='hostile_requests', validates='the router and the typed-RPC decode path (rpc/mod.rs, rpc/codec.rs, routing/mod.rs) on %s requests from a connected peer: odd and very long route strings, json bodies of the wrong type made of multi-byte characters at every length 0..=420, truncated / huge-length / invalid-UTF-8 bincode bodies'
-                % got.get('sent'), cases=int(got.get('sent') or 0), failed=fails, ok=not fails, props=['C06', 'C16'],
+                % got.get('sent'), cases=int(got.get('sent') or 0), failed=fails, ok=not fails, props=['C06', 'C16', 'C17'],
                 clause='no request content can panic the node or make it stop serving: a malformed request affects only its own stream and is answered with an error')
